@@ -82,8 +82,9 @@ def run(ctx):
         os.remove(tres.out_path)
     ctx.traces = nrec
     return ctx.finish("exploration", {
-        "exhaustive": True, "evaluations": sum(v["calls"] for v in cov.values()), "families": cov, "outcome_records_validated_by_tlc": nrec,
-        "rule": "every sequence of <= MaxLen fragments of each family's alphabet (Inputs.tla), joined and crossed with the real tables of property, descriptor and attribute names",
+        "exhaustive": True, "evaluations": sum(v["calls"] for v in cov.values()), "distinct_nontrivial": sum(v["ok"] for v in cov.values()), "families": cov, "outcome_records_validated_by_tlc": nrec,
+        "rule": "every sequence of <= MaxLen fragments of each family's alphabet (Inputs.tla), joined and crossed with the real tables of property, descriptor and attribute names; "
+                "non-trivial = calls that the entry point accepts (outcome ok), the others being rejected with an error / ignored",
     }, assumptions=[
         "exploration, not proof: inputs outside the fragment alphabets and longer sequences are not covered",
         "the CSS tokenizer and rule parsers are exercised by C06 / C20 on their own exhaustive families; panics there are reported by those checks",
